@@ -148,6 +148,40 @@ fn check_untyped(ctx: &Ctx, triples: &[Triple]) -> Report {
                 }
             }
         }
+        // values typed through the annotation allowances (nat at int, null at opt, anything at
+        // reserved, ...): the message must be the well-formed encoding of their normal form
+        for m in c10::allowance_values(&tr.env, &tr.t, &tr.v) {
+            let Some(norm) = refmodel::val::liberal_norm(&tr.env, &m, &tr.t, true) else { continue };
+            let Ok(iv) = bridge::to_idl(&m, false) else { continue };
+            rep.evaluations += 1;
+            rep.transitions += 2;
+            let a = catch(|| IDLArgs::new(&[iv.clone()]).to_bytes_with_types(&renv, &[rt.clone()]));
+            let b = catch(|| {
+                let mut bld = candid::ser::IDLBuilder::new();
+                bld.value_arg_with_type(&iv, &renv, &rt)?;
+                bld.serialize_to_vec()
+            });
+            for (name, r) in [("to_bytes_with_types", a), ("value_arg_with_type", b)] {
+                // (whether the value is accepted is C10's question)
+                if let Ok(Ok(bytes)) = r {
+                    rep.traces_validated += 1;
+                    match conformance(&bytes, &tr.env, &[tr.t.clone()], &[norm.clone()], &lim) {
+                        Ok(()) => {
+                            rep.nontrivial += 1;
+                            rep.outcome("untyped-allowance:conformant");
+                        }
+                        Err(msg) => {
+                            rep.outcome("untyped-allowance:nonconformant");
+                            rep.violation(
+                                &format!("{name}-conformance-allowance|env={}|t={}|m={}", tr.env.to_string().replace('\n', " "), tr.t, m),
+                                msg,
+                                json!({"env": tr.env.to_string(), "type": tr.t.to_string(), "value": tr.v.to_string(), "allowance_value": m.to_string(), "bytes": hex(&bytes)}),
+                            );
+                        }
+                    }
+                }
+            }
+        }
         // two-argument messages share one table: (v, v) at (t, t)
         if i % 5 == 0 {
             if let Ok(iv) = bridge::to_idl(&tr.v, false) {
@@ -210,7 +244,7 @@ pub fn run(tier: Tier, replay: Option<&str>) -> i32 {
     finish(
         &ctx,
         rep,
-        "native: every small value of every corpus Rust type through Encode!; untyped: every (environment, type, value) triple of the C10 scope through IDLArgs::to_bytes_with_types and IDLBuilder::value_arg_with_type (blobs spelled both ways), plus two-argument messages sharing a table. Oracle: strict reference decoder (composite-only table, ascending unique ids/method names, index ranges, methods are functions, values of declared types, nothing left over) returns the same abstract values at argument types structurally equal (R3) to the specified ones, and re-serialising exactly what was decoded reproduces the bytes (minimal (S)LEB128, little-endian fixed width, declared variant index). Encoding twice gives identical bytes; serialize twice on one builder. Non-trivial = conformant messages.",
+        "native: every small value of every corpus Rust type through Encode!; untyped: every (environment, type, value) triple of the C10 scope through IDLArgs::to_bytes_with_types and IDLBuilder::value_arg_with_type (blobs spelled both ways), every value typed at the triple's type only through the annotation allowances (nat at int with magnitudes around every LEB128 group boundary, null at opt, anything at reserved, absent optional field, float64 literal at float32; the message must conform at the normal form), plus two-argument messages sharing a table. Oracle: strict reference decoder (composite-only table, ascending unique ids/method names, index ranges, methods are functions, values of declared types, nothing left over) returns the same abstract values at argument types structurally equal (R3) to the specified ones, and re-serialising exactly what was decoded reproduces the bytes (minimal (S)LEB128, little-endian fixed width, declared variant index). Encoding twice gives identical bytes; serialize twice on one builder. Non-trivial = conformant messages.",
         &["R2 strict decoder and encoder of values", "Cor::to_ty / to_val as the specified mapping of Rust types"],
         json!({}),
     )
